@@ -48,6 +48,14 @@ resume_load_progress(Download download, const Object& object) {
     return;
   }
 
+  // Reject the whole object before anything is applied if an entry cannot be read.
+  for (const auto& file : files) {
+    if (!file.is_map()) {
+      LT_LOG_LOAD_INVALID("file entry is not a map", 0);
+      return;
+    }
+  }
+
   if (!resume_load_bitfield(download, object))
     return;
 
@@ -317,12 +325,16 @@ resume_load_uncertain_pieces(Download download, const Object& object) {
   const char* last = uncertain.c_str() + uncertain.size();
 
   while (itr + sizeof(uint32_t) <= last) {
-    // Fix this so it does full ranges.
-    download.update_range(Download::update_range_recheck | Download::update_range_clear,
-                          ntohl(*reinterpret_cast<const uint32_t*>(itr)),
-                          ntohl(*reinterpret_cast<const uint32_t*>(itr)) + 1);
+    uint32_t index = ntohl(*reinterpret_cast<const uint32_t*>(itr));
 
     itr += sizeof(uint32_t);
+
+    // Skip indices outside the torrent instead of aborting, the remaining ones must still be rechecked.
+    if (index >= download.file_list()->size_chunks())
+      continue;
+
+    // Fix this so it does full ranges.
+    download.update_range(Download::update_range_recheck | Download::update_range_clear, index, index + 1);
   }
 }
 
